@@ -569,7 +569,7 @@ theorem lk_wsDrop {w : World} (c : Nat) (l : Link w) : Link (wsDrop w c) := by
   try dsimp only
   split
   · lk_auto
-  · split <;> lk_auto
+  · split <;> (try split) <;> lk_auto
 
 /-! ### the application, timers, operations -/
 
